@@ -76,6 +76,13 @@ ASSUMPTIONS = ["CPython 3.12 reference counting, cycle collector and weakref cle
 CLASSES = {}
 
 MAXOPS = 60
+
+
+def translators(ctx):
+    """statement order of cdatagcp_finalize / cdatagcp_dealloc / cdata_exit / b_gcp / the handle functions"""
+    sys.path.insert(0, os.path.join(common.VERIF, "translate"))
+    import c21_steps
+    return [lambda: c21_steps.translate(common.REPO, common.write_generated)]
 MAXDEPTH = 3          # nesting of destructor calls inside which scripted operations are still issued
 
 
